@@ -41,7 +41,7 @@ ANCHORS = [
     "stereomolgraph.graphs.scrg:StereoCondensedReactionGraph.from_geometries",
 ]
 REQUIRED_ANCHORS = ANCHORS
-REQUIRED = ["geometries", "transforms", "kind:reflect", "kind:permute", "kind:rotate", "template:Tetrahedral", "template:SquarePlanar", "template:TrigonalBipyramidal", "template:Octahedral", "template:planar", "embedded_molecules", "repo_xyz", "reaction_triples", "template_class_checked"]
+REQUIRED = ["geometries", "transforms", "kind:reflect", "kind:permute", "kind:rotate", "template:Tetrahedral", "template:SquarePlanar", "template:TrigonalBipyramidal", "template:Octahedral", "template:planar", "embedded_molecules", "repo_xyz", "reaction_triples", "template_class_checked", "reused_switching_function_perceptions"]
 CASE_TIMEOUT = 120
 KINDS = ("rotate", "permute", "rot+perm", "reflect", "all", "translate")
 SMILES = [
@@ -243,7 +243,61 @@ def check_case(ctx, case):
                 ctx.violate(f"C07/planarity-depends-on-atom-order/{amb}", f"{src} geometry {info}, {kind}: {'; '.join(diff[:2])} - the same four points are within 1 A of a plane seen from one apex and not from another; are_planar() only evaluates the last point of each quadruple in input order", case)
                 continue
             ctx.violate(f"C07/not-invariant/{kind if kind in ('reflect',) else ('mirror+' if mirrored else '') + 'rigid-or-permutation'}/{part}/{klass or 'bonds'}", f"{src} geometry, {kind}: {'; '.join(diff[:2])}", case)
+    if len(els) <= 40 and case["gseed"] % 3 == 0:
+        _reused_switching_function(ctx, case, els, X, rng)
     ctx.sample({"source": src, "info": info, "n_atoms": len(els), "descriptors": n_desc, "kinds": case["kinds"]})
+
+
+def _reused_switching_function(ctx, case, els, X, rng):
+    """the caller's own BondsFromDistance object, used for several perceptions with its cut-off table edited in between
+    (a stretched bond to be counted, a contact not to be counted) and the atoms given in two orders: every graph must be
+    the one a brand-new object with the same table yields for the same input (no geometric tolerance involved: same
+    numbers, same rule)"""
+    from stereomolgraph.coords import BondsFromDistance, Geometry
+    from stereomolgraph.graphs.smg import StereoMolGraph
+    from stereomolgraph.periodic_table import PERIODIC_TABLE
+
+    sf = BondsFromDistance()
+    edits = []
+
+    def perceive(f, e, Y):
+        # (an edited table can create coordination patterns far from every polyhedron, for which perception raises;
+        # then the long-lived object has to raise alike)
+        try:
+            return snap(StereoMolGraph.from_geometry(Geometry(e, Y), f))
+        except Exception as ex:  # noqa: BLE001
+            return {"raised": type(ex).__name__}
+
+    def fresh():
+        f = BondsFromDistance()
+        for key, val in edits:
+            f.connectivity_cutoff[key] = val
+        return f
+
+    n = len(els)
+    perm = list(range(n))
+    rng.shuffle(perm)
+    orders = [("same-order", list(els), X), ("reordered", [els[p] for p in perm], X[perm])]
+    try:
+        perceive(sf, els, X)  # first use with the default table
+        i, j = rng.sample(range(n), 2)
+        val = float(sf.connectivity_cutoff[(PERIODIC_TABLE[els[i]], PERIODIC_TABLE[els[j]])]) * rng.choice([0.5, 0.5, 0.8, 1.3, 1.7])
+        for key in ((PERIODIC_TABLE[els[i]], PERIODIC_TABLE[els[j]]), (PERIODIC_TABLE[els[j]], PERIODIC_TABLE[els[i]])):
+            sf.connectivity_cutoff[key] = val
+            edits.append((key, val))
+        for tag, e, Y in orders:
+            ctx.count("reused_switching_function_perceptions")
+            got, want = perceive(sf, e, Y), perceive(fresh(), e, Y)
+            if "raised" in got or "raised" in want:
+                d = [] if got == want else [f"new object: {want.get('raised', 'a graph')}, used object: {got.get('raised', 'a graph')}"]
+                ctx.count("reused_switching_function_both_raise")
+            else:
+                d = sem.pg_diff(want, got, mode="exact")
+            if d:
+                ctx.violate(f"C07/depends-on-history-of-switching-function/{tag}", f"a BondsFromDistance object used before and then given another cut-off for elements {els[i]}/{els[j]} yields a different graph than a new object with the same table ({tag}): {d[0]}", case)
+                return
+    except Exception as e:  # noqa: BLE001
+        ctx.violate(f"C07/from_geometry-raises:{type(e).__name__}/reused-switching-function", f"{e!r}", case)
 
 
 def _order_dependent_planarity(want, got, X, perm):
